@@ -51,6 +51,9 @@ def bind_and_run(ex, fn, st, bindings):
             st.env[p] = ex.ev(defaults[p], st)
         else:
             raise Unsupported(f"parameter {p} unbound")
+    for k, v in bindings.items():
+        if k not in params:
+            st.env[k] = v  # names the body obtains through `import` (bound to assumed contracts)
     ex.loop_ordinal = 0
     loops = [n for n in ast.walk(fn) if isinstance(n, (ast.For, ast.While))]
     loops.sort(key=lambda n: (n.lineno, n.col_offset))
@@ -117,6 +120,10 @@ def heap_eq_parts(ex, h1, h2, oids):
         elif isinstance(r1, CircuitRec):
             if r1.graph != r2.graph or r1.bbs != r2.bbs:
                 parts.append((f"{tag}.identity", z3.BoolVal(False)))
+        elif isinstance(r1, dict) and r1.get("kind") in ("CNF", "Solver"):
+            o = ex.ctx.fresh("ho", ex.ctx.Obj)
+            parts.append((f"{tag}.clauses", r1["sat"] == r2["sat"]))
+            parts.append((f"{tag}.variables", z3.ForAll([o], z3.Select(r1["men"], o) == z3.Select(r2["men"], o))))
     return parts
 
 
